@@ -45,7 +45,9 @@ def broken_hook(exc):
     if not os.path.abspath(fn).startswith(here):
         return None
     msg = str(exc)
-    if isinstance(exc, (AttributeError, ImportError, NameError)) and 'msmhelper' in (msg + repr(getattr(exc, 'obj', ''))):
+    obj = getattr(exc, 'obj', None)
+    owner = getattr(obj, '__name__', '') if type(obj).__name__ == 'module' else getattr(type(obj), '__module__', '')
+    if isinstance(exc, (AttributeError, ImportError, NameError)) and ('msmhelper' in msg or str(owner).startswith('msmhelper')):
         return '%s: %s (%s:%d)' % (type(exc).__name__, msg[:160], os.path.basename(fn), last.tb_lineno)
     if isinstance(exc, TypeError) and any(k in msg for k in ('positional argument', 'unexpected keyword', 'required positional', 'takes ')):
         return '%s: %s (%s:%d)' % (type(exc).__name__, msg[:160], os.path.basename(fn), last.tb_lineno)
